@@ -18,6 +18,8 @@ def pool():
         P += [c(0.0), c(-0.0), c(1.5), c(10.0), c(5e-324), c(1.7976931348623157e308), c(float("inf")), c(float("-inf")), c(nan1), c(nan2), c(NA), c(None)]
     for c in (T.UAString, T.UAGuid):
         P += [c("a"), c("b"), c("a b"), c("é"), c("(1,)"), c("'"), c(""), c(NA)]
+    # one Guid in two letter cases and a Guid whose text sorts between the two spellings; the same for strings
+    P += [T.UAGuid("C496578A-0DFE-4B8F-870A-745238C6AEAE"), T.UAGuid("c496578a-0dfe-4b8f-870a-745238c6aeae"), T.UAGuid("D0000000-0000-0000-0000-000000000000"), T.UAString("ABC"), T.UAString("abc"), T.UAString("Bcd")]
     P += [T.UADateTime(datetime.datetime(2020, 1, 2, 3, 4, 5)), T.UADateTime(datetime.datetime(1999, 12, 31, 23, 59, 59, 123456)),
           T.UADateTime(datetime.datetime(2020, 1, 2, 3, 4, 5, tzinfo=datetime.timezone.utc))]
     P += [T.UAByteString(b"abc"), T.UAByteString(b"\x00\xff"), T.UAByteString(b""), T.UAByteString(None)]
@@ -239,6 +241,7 @@ def check(ctx):
     except BaseException as e:
         ctx.notes["methodless_graph"] = "normalising a node table without a MethodDeclarationId column raised %s" % type(e).__name__
     for t, (rows, refs) in enumerate(tables):
+        vlib.pandas_mode(t)
         out = impl_tables(rows, refs)
         ctx.record(["table", [[str(r[c]) for c in ["id"] + NODE_COLS + REF_COLS] for r in rows], refs], len(rows) >= 3, ["table"])
         if out[0] != "ok":
